@@ -88,6 +88,26 @@ func main() {
 				imp.EndPos = 0
 				changed = true
 			}
+			// own the iteration order of `for _, f := range <x>.olderFiles` (package root only): the
+			// harness chooses the permutation (sched.MapPerm), so Merge's scan order is enumerable.
+			if p == "." {
+				ast.Inspect(f, func(n ast.Node) bool {
+					rs, ok := n.(*ast.RangeStmt)
+					if !ok || rs.Value == nil {
+						return true
+					}
+					if id, ok := rs.Key.(*ast.Ident); !ok || id.Name != "_" {
+						return true
+					}
+					sel, ok := rs.X.(*ast.SelectorExpr)
+					if !ok || sel.Sel.Name != "olderFiles" {
+						return true
+					}
+					rs.X = &ast.CallExpr{Fun: ast.NewIdent("verifMapOrder"), Args: []ast.Expr{rs.X}}
+					changed = true
+					return true
+				})
+			}
 			if !changed {
 				continue
 			}
